@@ -5,3 +5,7 @@ import Gomjml.Props.C04
 #print axioms Gomjml.Props.C04.C04_chardata_never_markup
 #print axioms Gomjml.Props.C04.C04_visible_components
 #print axioms Gomjml.Props.C04.C04_once_components
+#print axioms Gomjml.Props.C04.C04_inline_roundtrip
+#print axioms Gomjml.Props.C04.C04_inline_model_is_core
+#print axioms Gomjml.Props.C04.C04_inline_content_roundtrip
+#print axioms Gomjml.Props.C04.C04_inline_value_counterexample
